@@ -13,7 +13,24 @@
    finding F8 (C08): applyFilter keeps only object-valued jq results, so a scalar, array or
    null result is rendered as {} — C09_filter_result_refuted.  What is proved at full
    strength is C09_contract_partial: P for every list of contexts outside the trigger
-   T = "the jq result of some rendered object is not a single JSON object". *)
+   T = "the jq result of some rendered object is not a single JSON object".
+
+   Second part (C09_flow_...): the same contract for the files the operator produces by
+   itself — model C09_Model.run_flow of the informer path (loadExistedObjects,
+   handleWatchEvent incl. the RemoveFullObject step, the cache, Snapshot, shouldFireEvent,
+   ConvertKubeEventToBindingContext, UpdateSnapshots, then render_list), Spec
+   C09_Spec.P_flow.  Full statement
+
+     Definition C09_flow_full_statement :=
+       forall f, flow_wf f = true -> P_flow f (Some (run_flow f)) = true.
+
+   is false for the same reason (C09_flow_refuted); C09_flow_contract_partial proves it
+   outside T_flow for every binding configuration (keepFullObjectsInMemory true/false,
+   any executeHookOnEvent list, jqFilter or not, group, includeSnapshotsFrom, v0/v1), every
+   set of existing objects and every history of watch events.  flow_wf asks that the
+   includeSnapshotsFrom list is sorted without duplicates (a restriction of the theorem,
+   not of the model), that jq answers are printed canonically and that a v0 hook keeps
+   full objects (F15). *)
 From Verif Require Import Common Json C09_Model C09_Spec C09_Proofs.
 
 Definition C09_full_statement : Prop :=
@@ -114,4 +131,55 @@ Example C09_hyp_met :
 Proof.
   destruct Wit.example_event_ok as [H1 [H2 [H3 _]]]. destruct Wit.example_v0_ok as [H4 _].
   destruct Wit.v0_nil_object_crashes as [H5 H6]. repeat split; assumption.
+Qed.
+
+(* ---------------- the informer path (flow cases) ---------------- *)
+
+Definition C09_flow_full_statement : Prop :=
+  forall f, flow_wf f = true -> P_flow f (Some (run_flow f)) = true.
+
+(* every file of every history conforms: the Synchronization file and the file of every fired
+   event are the documented contexts of the binding for the objects they stand for *)
+Theorem C09_flow_contract_partial : forall f,
+  flow_wf f = true -> T_flow f = false -> P_flow f (Some (run_flow f)) = true.
+Proof. exact flow_contract_partial. Qed.
+Print Assumptions C09_flow_contract_partial.
+
+Theorem C09_flow_refuted :
+  exists f, flow_wf f = true /\ T_flow f = true /\ P_flow f (Some (run_flow f)) = false.
+Proof. exists Wit.witness_flow_F8. exact Wit.flow_refuted. Qed.
+Print Assumptions C09_flow_refuted.
+
+(* whatever the cache holds and whichever watch event arrives — Added, Modified or Deleted —
+   a KubeEvent that is fired carries exactly that event type and, for that very object, the
+   filter result with the full object present exactly when keepFullObjectsInMemory is true *)
+Theorem C09_flow_event_object_iff_keep : forall b c t w c' ev,
+  handle b c t w = (c', Some ev) ->
+  t <> WNone
+  /\ ev = mkKev KEvent [t] [(w_id w, apply_filter (jqf_of b w) (b_keep b) (w_obj w))].
+Proof. exact handle_event. Qed.
+Print Assumptions C09_flow_event_object_iff_keep.
+
+(* after any history the cache (the source of `objects` and `snapshots`) is the image of the
+   objects of the cluster, and every entry holds its object's filter result with the full
+   object present exactly when keepFullObjectsInMemory is true *)
+Theorem C09_flow_cache_object_iff_keep : forall b ws ops id e,
+  In (id, e) (fold_left (fun c op => fst (handle b c (fst op) (snd op))) ops (load_existing b ws [])) ->
+  exists w, In (id, w) (fold_left alive_step ops (alive_init ws))
+            /\ en_ofr e = apply_filter (jqf_of b w) (b_keep b) (w_obj w).
+Proof. intros b ws ops id e H. rewrite cache_after in H. now apply cache_entry_ofr. Qed.
+Print Assumptions C09_flow_cache_object_iff_keep.
+
+(* non-vacuity: a binding with keepFullObjectsInMemory=false, a jqFilter, all event types and
+   its own snapshots over an existing object and a Modified/Added/Deleted history meets the
+   hypotheses and renders files without `object`; the predicate rejects the same Deleted
+   file when it carries the deleted object *)
+Example C09_flow_hyp_met :
+  flow_wf Wit.example_flow = true /\ T_flow Wit.example_flow = false
+  /\ length (run_flow Wit.example_flow) = 4%nat
+  /\ P_file Wit.example_flow Wit.leaking_file = false.
+Proof.
+  destruct Wit.example_flow_ok as [H1 [H2 H3]]. destruct Wit.leaking_file_rejected as [H4 _].
+  split; [exact H1|]. split; [exact H2|]. split; [|exact H4].
+  apply (f_equal (@length _)) in H3. now rewrite map_length in H3.
 Qed.
